@@ -43,11 +43,24 @@ def const_choices(kind, n, m):
     raise ValueError(kind)
 
 
+def ns_for(s, tier):
+    """the sizes a spec is tried at: its listed sizes plus the sizes where size-derived constants (#(4n), (n+3)/4, ...)
+    change - 4n a power of two.  Specs listed up to n = 3 only are the expensive ones (mul, div): they get 4 only."""
+    ns = set(s['ns'])
+    if ns == {1}:
+        return [1]
+    heavy = max(ns) <= 3
+    extra = {4} if heavy else {4, 8}
+    if tier != 'quick' and not heavy:
+        extra |= {6, 7, 16}
+    return sorted(ns | {n for n in extra if n >= min(ns)})
+
+
 def variants(tier):
     """every (spec, n, m, C, K, w) bench program"""
     out = []
     for s in S.SPECS:
-        for n in s['ns']:
+        for n in ns_for(s, tier):
             for m in s['ms']:
                 if m is not None and m > n:
                     continue
@@ -75,7 +88,7 @@ def build_source(v):
     n, m = v['n'], v['m']
     call = s['call'].format(n=n, m=m, C=v['C'], K=v['K'], L0='L0', L1='L1', L2='L2')
     sizes = var_sizes(s, n, m)
-    lines = ['stl.startup_and_init_all']
+    lines = ['stl.startup_and_init_all', 'again:']
     if s['pre']:
         lines.append(s['pre'])
     lines += [call, "stl.output_char 'F'", ';done']
@@ -105,13 +118,16 @@ def get_bench(v):
     return _benches[key]
 
 
-def run_tuple(b, sizes, v, values):
-    """values: dict var -> initial value.  -> None or (what, detail)"""
+def run_tuple(b, sizes, v, values, mem=None, start=None):
+    """values: dict var -> initial value.  -> None or (what, detail).
+    mem/start: re-execute the same call site on a memory that already ran it (stale macro-local state shows)"""
     s = SPEC_BY_NAME[v['spec']]
-    m_ = b.fresh()
+    m_ = b.fresh() if mem is None else mem
     for name, size in sizes.items():
         b.set(m_, name, size, values[name])
-    r = b.run(m_)
+    if mem is not None:
+        b.set(m_, 'pr', 1, 5)
+    r = b.run(m_, start=start)
     upd = s['f'](dict(values), v['n'], v['m'], v['C'], v['K'])
     br = upd.get('_branch', 'fall')
     exp_out = ('F' if br == 'fall' else str(br)) + ('!' if upd.get('_addc') else '') + ('?' if upd.get('_subc') else '') + '<'
@@ -159,9 +175,9 @@ def enumerations(tier):
             if k % nshards != shard:
                 continue
             if bits <= limit_bits:
-                yield dict(v, kind='sweep', mode='exhaustive')
+                yield dict(v, kind='sweep', mode='exhaustive', chain=150 if tier == 'quick' else 1500)
             else:
-                yield dict(v, kind='sweep', mode='boundary')
+                yield dict(v, kind='sweep', mode='boundary', chain=150 if tier == 'quick' else 1500)
     return [{'name': 'operand-sweeps', 'cases': cases, 'exhaustive': False}]
 
 
@@ -206,6 +222,11 @@ def run_sweep(v):
                 if bb != 0 and a % bb == 0 and v['spec'][-1] in '02':
                     key = 'c04:hex.idiv:rem_opt0|2:zero-remainder-adjusted'
             return Violation(key, {'variant': {k: v[k] for k in ('spec', 'n', 'm', 'C', 'K', 'w')}, 'operands': values, **detail}, cl)
+    from fjverif.props import c05
+    bad = c05.run_chain(b, sizes, v, 'c04', run_tuple=run_tuple, sweep=sweep_tuples)
+    if bad:
+        return Violation(bad[0], bad[1], cl + ['re-execution chain'])
+    cl.append('re-execution chain')
     return Ok(cl, nz > 0, evals=count, distinct=nz, sample={'variant': {k: v[k] for k in ('spec', 'n', 'm', 'C', 'K', 'w')}, 'tuples': count})
 
 
